@@ -183,7 +183,46 @@ def cleanAll (g : Spec.Gfx.Sent) (ids : List Nat) (lines : List Bytes) (r : Resu
     fun _ => prefixClause "S:" (Spec.Gfx.checkClean g ids (lines.map Bytes.trimSpace) (delivsOf r.s true)),
     fun _ => prefixClause "J:" (Spec.Gfx.checkClean g ids (lines.map Bytes.trimSpace) (delivsOf r.j true))]
 
+def cleanAllMulti (imgs : List (Spec.Gfx.Sent × List Nat)) (lines : List Bytes) (r : Result) : Option String :=
+  firstSome [
+    fun _ => prefixClause "B:" (Spec.Gfx.checkCleanAll imgs lines (delivsOf r.b false)),
+    fun _ => prefixClause "S:" (Spec.Gfx.checkCleanAll imgs (lines.map Bytes.trimSpace) (delivsOf r.s true)),
+    fun _ => prefixClause "J:" (Spec.Gfx.checkCleanAll imgs (lines.map Bytes.trimSpace) (delivsOf r.j true))]
+
 def countG (sec : Sec) : Nat := (delivsOf sec false).length
+
+/-- the history fed by `gfx.rt` / `gfx.multi`: encoder lines with the extra lines inserted (stable by position) -/
+def weave (i : Nat) (enc : List Bytes) (exs : List (Nat × Bytes)) (fuel : Nat) : List Bytes :=
+  match fuel with
+  | 0 => []
+  | fuel + 1 =>
+    match exs, enc with
+    | (p, l) :: more, e :: es => if p ≤ i then l :: weave i (e :: es) more fuel else e :: weave (i + 1) es ((p, l) :: more) fuel
+    | (_, l) :: more, [] => l :: weave i [] more fuel
+    | [], es => es
+
+def pairs : List String → Option (List (Nat × Bytes))
+  | [] => some []
+  | p :: l :: rest => do
+    let p ← p.toNat?; let l ← unhex l; let r ← pairs rest; pure ((p, l.toList) :: r)
+  | _ => none
+
+/-- one state of a `gfx.multi` record: image and target ids -/
+def pState : P (Img × List Nat) := do
+  let ty ← pNat; let w ← pNat; let h ← pNat; let off ← pBool; let x ← pNat; let y ← pNat
+  let ids ← pIds; let d ← pBytes
+  pure ({ ty := ty, W := w, H := h, off := off, X := x, Y := y, data := d }, ids)
+
+/-- input half of a `gfx.multi` record: the messages (states per message) and the extra lines -/
+def pMultiArgs : P (List (List (Img × List Nat)) × List (Nat × Bytes)) := do
+  let m ← pNat
+  let msgs ← pMany (do let s ← pNat; pMany pState s) m
+  let k ← pNat
+  let ex ← pMany (do let p ← pNat; let l ← pBytes; pure (p, l)) k
+  pure (msgs, ex)
+
+def sentOfImg (g : Img) : Spec.Gfx.Sent :=
+  { fmt := g.ty, W := g.W, H := g.H, off := g.off, X := g.X, Y := g.Y, data := g.data }
 
 def answer (eq : Bool) (h : Option String) (model : String) (tags : List String) : String :=
   let hs := match h with | none => "H1" | some c => s!"H0:{c}"
@@ -253,12 +292,6 @@ def step (st : St) (cmd : String) (args : List String) (impl : String) : St × S
     match ty.toNat?, w.toNat?, hh.toNat?, parseBool off, x.toNat?, y.toNat?, unhex img, k.toNat? with
     | some ty, some w, some hh, some off, some x, some y, some img, some k =>
       let idl : List Nat := if ids = "-" then [] else (ids.splitOn ",").filterMap String.toNat?
-      -- pairs (pos, line)
-      let rec pairs : List String → Option (List (Nat × Bytes))
-        | [] => some []
-        | p :: l :: rest => do
-          let p ← p.toNat?; let l ← unhex l; let r ← pairs rest; pure ((p, l.toList) :: r)
-        | _ => none
       match pairs extra with
       | none => (st, "ERR bad-record")
       | some ex =>
@@ -271,14 +304,6 @@ def step (st : St) (cmd : String) (args : List String) (impl : String) : St × S
           let modelEnc := encodeState g idl
           -- the history fed: encoder lines with the extra lines inserted (stable by position)
           let exs := ex.mergeSort (fun a b => a.1 ≤ b.1)
-          let rec weave (i : Nat) (enc : List Bytes) (exs : List (Nat × Bytes)) (fuel : Nat) : List Bytes :=
-            match fuel with
-            | 0 => []
-            | fuel + 1 =>
-              match exs, enc with
-              | (p, l) :: more, e :: es => if p ≤ i then l :: weave i (e :: es) more fuel else e :: weave (i + 1) es ((p, l) :: more) fuel
-              | (_, l) :: more, [] => l :: weave i [] more fuel
-              | [], es => es
           let lines := weave 0 enc exs (enc.length + exs.length + 1)
           let sent : Spec.Gfx.Sent := { fmt := ty, W := w, H := hh, off := off, X := x, Y := y, data := img.toList }
           match runHistory st lines rest with
@@ -293,6 +318,32 @@ def step (st : St) (cmd : String) (args : List String) (impl : String) : St × S
             (st, answer (eqE && eqH) h (if eqE then model else showEnc)
               [s!"lines{enc.length}", if Spec.Gfx.cleanRuns sent idl lines then "clean" else "notclean"])
     | _, _, _, _, _, _, _, _ => (st, "ERR bad-record")
+  | "gfx.multi", margs =>
+    match pMultiArgs.run margs with
+    | none => (st, "ERR bad-record")
+    | some ((msgs, ex), restArgs) =>
+      if !restArgs.isEmpty then (st, "ERR bad-record") else
+      match (do pExpect "L"; let n ← pNat; pMany pBytes n : P (List Bytes)).run implToks with
+      | none => (st, "NE H0:encoder-panic-or-unreadable-output")
+      | some (enc, rest) =>
+        -- model = implementation on the whole call: message after message, state after state
+        let modelEnc := encodeMsgs msgs
+        let exs := ex.mergeSort (fun a b => a.1 ≤ b.1)
+        let lines := weave 0 enc exs (enc.length + exs.length + 1)
+        -- the property, per image in message order
+        let imgs : List (Spec.Gfx.Sent × List Nat) := msgs.flatten.map (fun s => (sentOfImg s.1, s.2))
+        match runHistory st lines rest with
+        | none => (st, s!"NE H0:panic-or-unreadable-output")
+        | some (r, eqH, model) =>
+          let eqE := modelEnc == enc
+          let h := firstSome [
+            fun _ => prefixClause "E:" (Spec.Gfx.checkEncAll imgs enc),
+            fun _ => cleanAllMulti imgs lines r,
+            fun _ => safetyAll lines r]
+          let showEnc := s!"L {modelEnc.length}" ++ String.join (modelEnc.map (fun l => " " ++ hexOfBytes l))
+          (st, answer (eqE && eqH) h (if eqE then model else showEnc)
+            [s!"msgs{msgs.length}", s!"imgs{imgs.length}", s!"lines{enc.length}",
+             if Spec.Gfx.cleanRunsAll imgs lines then "clean" else "notclean"])
   | _, _ => (st, "ERR bad-record")
 
 end RawPanelVerif.Driver.Gfx
